@@ -119,7 +119,9 @@ class Sim:
         self.timeline = models.Timeline(self._snap(self.last_canon))
         self.labels: list = []  # transition labels parallel to timeline (named sets)
         self.expected_emissions = 0
-        self.model_active = set(self.tracks.annotators.features)
+        # the client's view of what is enabled: what the object reports after construction,
+        # plus track and lineage ids, which a solution manages from the start by contract
+        self.model_active = set(self.tracks.annotators.features) | {self.tracks.features.tracklet_key, self.tracks.features.lineage_key}
         self.model_static = set(self.tracks.features) - set(self.tracks.annotators.all_features)
         self.issued_node_ids: list = []
         self.saves: dict = {}  # fmt -> acknowledged save record
@@ -346,8 +348,9 @@ class Sim:
         return self.tracks.graph.nodes[n][self.tracks.features.time_key]
 
     def structural_ok(self):
-        """Structural edits (and undo/redo) are only scheduled while track ids are managed."""
-        return self.tracks.features.tracklet_key in self.tracks.annotators.features
+        """Structural edits (and undo/redo) are only scheduled while track ids are managed
+        (by the client's account: it has not switched them off)."""
+        return self.tracks.features.tracklet_key in self.model_active
 
     # ---------------------------------------------------------------- step
     def step(self, op: dict):
@@ -587,13 +590,13 @@ class Sim:
                     return
                 self.stat("C07.eval")
             if self.active("C08") and changed_state:
-                for o, m in oracles.node_measurements(tr) or self._shape_check():
+                for o, m in oracles.node_measurements(tr, active=self.model_active) or self._shape_check():
                     self.violate("C08", o, m, op, tags)
                     return
                 self.stat("C08.eval")
             if self.active("C09") and changed_state:
                 orc = "bulk" if kind == "enable" and "iou" in (out.get("resolved") or {}).get("keys", ()) else "incremental"
-                for o, m in oracles.iou_values(tr, "C09", orc):
+                for o, m in oracles.iou_values(tr, "C09", orc, active=self.model_active):
                     self.violate("C09", o, m, op, tags)
                     return
                 self.stat("C09.eval")
@@ -631,7 +634,7 @@ class Sim:
 
     def _shape_check(self):
         try:
-            return oracles.shape_features(self.tracks)
+            return oracles.shape_features(self.tracks, active=self.model_active)
         except (NotImplementedError, ValueError) as e:
             self.guard("dependency_abort", f"from-scratch shape computation raised {type(e).__name__}: {e}")
 
@@ -1816,7 +1819,10 @@ class Sim:
         self.tainted = set()
         self.last_canon = observe.canon(tracks)
         self.timeline = models.Timeline(self._snap(self.last_canon))
-        self.model_active = set(tracks.annotators.features)
+        # what the rebuilt object reports, plus the id features the client had on before the
+        # restart (a saved registry with lineage ids switched off legitimately comes back so)
+        had = {k for k in (tracks.features.tracklet_key, tracks.features.lineage_key) if k in self.model_active}
+        self.model_active = set(tracks.annotators.features) | had
         self.model_static = set(tracks.features) - set(tracks.annotators.all_features)
         self.restarts += 1
 
